@@ -506,7 +506,7 @@ func batchCases() []BatchCase {
 
 func TestCheck(t *testing.T) {
 	r := rep.New("C18", "exploration",
-		"recordings: every field value of a typed boundary alphabet (int incl. >2^53 and extremes, floats incl. integral and extreme magnitudes, bools, strings with quotes, commas, spaces, '=', backslashes, newline, unicode, empty) x field keys with special characters; measurement names, tag keys and tag values, db and rp names over the same specials; 0-2 tags; timestamp patterns (equal times, gaps, sub-precision steps), precisions n/u/ms/s, 20 interleaved points over two databases; batches over the same values, group tags with specials, byName, no group, several groups, tmax equal to / later than the last point, empty batches. Each case is written with Write{Point,Batch}ForRecording and replayed with Replay{Stream,Batch}FromIO in both clock modes inside a synctest bubble (goroutine-leak oracle); identity of db, rp, name, tags, field names/values/TYPES, group, order, timestamps identical or shifted by one constant. non-trivial = distinct cases containing a special character, a non-float field or more than one item")
+		"recordings: every field value of a typed boundary alphabet (int incl. >2^53 and extremes, floats incl. integral and extreme magnitudes, bools, strings with quotes, commas, spaces, '=', backslashes, newline, unicode, empty) x field keys with special characters; measurement names, tag keys and tag values, db and rp names over the same specials; 0-2 tags; timestamp patterns (equal times, gaps, sub-precision steps), precisions n/u/ms/s, 20 interleaved points over two databases; batches over the same values, group tags with specials, byName, no group, several groups, tmax equal to / later than the last point, empty batches; an enumerated batch family: every sequence of up to 2 (thorough 3) batches over group tags {none, g=a, g=b} x first point at {1s, 0.5s, 11s} (a later batch may start before the first) x 1-2 points x each point with/without own tags x end time {last point, +10s}; the file-backed store of services/replay: batch recordings of tasks with 1..13 (thorough 120) queries x batches-per-query patterns written through BatchArchiver and replayed through BatchReaders (collector i must receive what was recorded for query i), stream recordings of 0..5000 points through StreamWriter/StreamReader. Each case is written with Write{Point,Batch}ForRecording and replayed with Replay{Stream,Batch}FromIO in both clock modes inside a synctest bubble (goroutine-leak oracle); identity of db, rp, name, tags, field names/values/TYPES, group, order, timestamps identical or shifted by one constant. non-trivial = distinct cases containing a special character, a non-float field or more than one item")
 	defer r.Write()
 	r.Assumption("database / retention policy names containing a newline are not enumerated (the recording format is line based by design)")
 	r.Assumption("measurement names, tag keys and tag values containing a backslash or a newline are not enumerated: the InfluxDB line protocol cannot represent them")
@@ -516,6 +516,7 @@ func TestCheck(t *testing.T) {
 		var c struct {
 			Stream *StreamCase
 			Batch  *BatchCase
+			Store  *StoreCase
 		}
 		if err := rep.LoadReplay(&c); err != nil {
 			t.Fatal(err)
@@ -528,6 +529,11 @@ func TestCheck(t *testing.T) {
 		if c.Batch != nil {
 			if p := runBatch(t, *c.Batch); p != nil {
 				r.Violation(bkey(p, *c.Batch), p.msg, c)
+			}
+		}
+		if c.Store != nil {
+			if p := runStore(t, *c.Store); p != nil {
+				r.Violation(p.kind, p.msg, c)
 			}
 		}
 		r.Add("evaluations", 1)
@@ -565,6 +571,41 @@ func TestCheck(t *testing.T) {
 		if r.WantSample() && n%40 == 3 {
 			r.Sample(map[string]any{"batch": c})
 		}
+	}
+	familyCases(rep.Thorough(), func(c BatchCase) {
+		n++
+		if !rep.Mine(n) || r.Expired() {
+			return
+		}
+		r.Add("evaluations", 1)
+		r.Add("family_cases", 1)
+		if len(c.Batches) > 1 {
+			r.AddDistinct("nontrivial", 1)
+		}
+		rep.Current(map[string]any{"Batch": c})
+		if p := runBatch(t, c); p != nil {
+			r.Violation("family:"+bkey(p, c), p.msg+" | case "+rep.Short(c), map[string]any{"Batch": c})
+		}
+		if r.WantSample() && n%4000 == 3 {
+			r.Sample(map[string]any{"batch": c})
+		}
+	})
+	for _, c := range storeCases(rep.Thorough()) {
+		n++
+		if !rep.Mine(n) {
+			continue
+		}
+		c := c
+		r.Add("evaluations", 1)
+		r.Add("store_cases", 1)
+		r.AddDistinct("nontrivial", 1)
+		rep.Current(map[string]any{"Store": c})
+		if p := runStore(t, c); p != nil {
+			r.Violation(p.kind, p.msg, map[string]any{"Store": c})
+		}
+	}
+	if r.Expired() {
+		r.Cap("deadline")
 	}
 }
 
